@@ -45,6 +45,7 @@ func heldAt(c *eng.Ctx, fn *ssa.Function, in ssa.Instruction, mu string, write b
 
 func runC06(c *eng.Ctx) {
 	p := c.P
+	everyPersistedGroupLoaded(c)
 	isLoadOf := func(field string) func(string, ssa.Value) bool {
 		return func(d string, v ssa.Value) bool { return strings.HasSuffix(d, "."+field) }
 	}
